@@ -27,6 +27,13 @@ int main() {
   return main_loop([](Toks& t, std::ostream& os) {
     const std::string cmd = t.next();
     if (cmd == "LINES") { Rect64 r = rd_rect(t); Paths64 ps = t.paths(); os << "OK "; put(os, RectClipLines(r, ps)); }
+    else if (cmd == "LINES2") {
+      // one RectClipLines64 object, Execute on the same paths twice: OK <first> T <second>   (no wrapper early return)
+      Rect64 r = rd_rect(t); Paths64 ps = t.paths();
+      RectClipLines64 rc(r);
+      Paths64 a = rc.Execute(ps); Paths64 b = rc.Execute(ps);
+      os << "OK "; put(os, a); os << " T "; put(os, b);
+    }
     else if (cmd == "CLIP") { Rect64 r = rd_rect(t); Paths64 ps = t.paths(); os << "OK "; put(os, RectClip(r, ps)); }
 #ifndef CX_RECT_API_ONLY   // everything below needs private members / file-local functions
     else if (cmd == "CLIPX") {
